@@ -16,15 +16,35 @@ Inductive cs_obs :=
                                distinguish the other reasons, so neither does the comparison) *)
 | ObsPanic.
 
+(* per transaction: observation, the client leaves that differ from the listing before the
+   transaction (the full sorted listing is compared: previous listing + these), the full sorted
+   listing of contract nodes afterwards, every node write the contract performed while it ran
+   (also when it then failed), and every node read it performed through StateContext.GetTrieNode
+   (i.e. through transaction cache / block cache / state cache): (number of own writes before the
+   read, key, value seen) *)
+Record cs_step_obs := {
+  so_obs : cs_obs;
+  so_changed : list (Z * cs_acct);
+  so_nodes : list (Z * Z);
+  so_attempted : list (Z * option Z);
+  so_reads : list (nat * Z * option Z) }.
+Definition cs_SO := Build_cs_step_obs.
+
 Record cs_case := {
   csc_cfg : cs_cfg;
   csc_init : cs_state;
   csc_items : list cs_item;
-  (* per transaction: observation, the client leaves that differ from the listing before the
-     transaction (the full sorted listing is compared: previous listing + these), and the full
-     sorted listing of contract nodes afterwards *)
-  csc_obs : list (cs_obs * list (Z * cs_acct) * list (Z * Z))
+  csc_obs : list cs_step_obs
 }.
+
+(* what a contract reads: the committed nodes before its transaction, overlaid with the writes it
+   has made itself so far - never anything an earlier failed or rejected call wrote *)
+Definition cs_reads_ok (nodes : list (Z * Z)) (attempted : list (Z * option Z))
+           (reads : list (nat * Z * option Z)) : bool :=
+  forallb (fun rd => match rd with
+                     | (pos, k, seen) =>
+                         option_eqb Z.eqb (cs_get k (cs_apply_writes (firstn pos attempted) nodes)) seen
+                     end) reads.
 
 Definition cs_err_class (e : cs_err) : Z :=
   match e with ErrNonce => 0 | _ => 4 end.
@@ -55,17 +75,21 @@ Definition cs_obs_matches (o : cs_outcome) (ob : cs_obs) : bool :=
   end.
 
 Fixpoint cs_check_from (cfg : cs_cfg) (st : cs_state) (items : list cs_item)
-         (obs : list (cs_obs * list (Z * cs_acct) * list (Z * Z))) : bool :=
+         (obs : list cs_step_obs) : bool :=
   match items, obs with
   | [], [] => true
-  | (round, tx, r) :: tl, (ob, changed, nodes) :: otl =>
+  | (round, tx, r) :: tl, so :: otl =>
+      let ob := so_obs so in
+      let changed := so_changed so in
+      let nodes := so_nodes so in
       let o := cs_update_state cfg st round tx r in
       let st' := cs_post st o in
       (* [st] equals the implementation's listing before this transaction (checked at the
          previous step; the initial listing is given in full) *)
       let after := {| st_accts := fold_left (fun m p => cs_put (fst p) (snd p) m) changed (st_accts st);
                       st_nodes := nodes |} in
-      cs_obs_matches o ob && cs_state_eqb st' after && cs_check_from cfg st' tl otl
+      cs_obs_matches o ob && cs_state_eqb st' after &&
+      cs_reads_ok (st_nodes st) (so_attempted so) (so_reads so) && cs_check_from cfg st' tl otl
   | _, _ => false
   end.
 
